@@ -477,6 +477,61 @@ func c04Fallback(c *Ctx) {
 		c.OK("C04.E5-fallback-committed-on-success", c.short(fetch.SSA.String())+" › no fallback switch", fetch.SSA.Pos(), "the request routine never switches to a legacy form")
 	}
 	c.Floor("C04.E5-fallback-committed-on-success", 1)
+	// what the restoring call puts back must be a snapshot taken before the switch, not an alias of the live state:
+	// restoring a field from its own address restores nothing
+	aliasOfState := func(x *X) bool {
+		x = strip(x)
+		return x != nil && x.Op == "field" && x.Addr && fieldOwner(x) == recvType
+	}
+	var leaves func(x *X, depth int, out *[]*X)
+	leaves = func(x *X, depth int, out *[]*X) {
+		if x == nil || depth > 4 {
+			return
+		}
+		if x.Op == "phi" {
+			for _, a := range x.Args {
+				leaves(a, depth+1, out)
+			}
+			return
+		}
+		*out = append(*out, x)
+	}
+	nRestore := 0
+	instrs(fetch.SSA, func(in ssa.Instruction) {
+		if !isUndo(in) {
+			return
+		}
+		ci := in.(ssa.CallInstruction)
+		x := c.CallX(ci)
+		for ai, arg := range x.Args {
+			if ai == 0 || !strings.HasPrefix(typeOfX(arg), "*") {
+				continue
+			}
+			nRestore++
+			var ls []*X
+			leaves(arg, 0, &ls)
+			bad := ""
+			for _, l := range ls {
+				switch {
+				case aliasOfState(l):
+					bad = "the live field " + l.String() + " itself"
+				case l.Op == "call" && l.Callee != nil && l.Callee.Pkg == fetch.SSA.Pkg:
+					for _, b := range l.Callee.Blocks {
+						if ret, ok := b.Instrs[len(b.Instrs)-1].(*ssa.Return); ok && len(ret.Results) > 0 {
+							if r := c.RetX(ret, 0); aliasOfState(r) {
+								bad = "the address of the live field returned by " + c.short(l.Callee.String())
+							}
+						}
+					}
+				}
+			}
+			key := c.short(fetch.SSA.String()) + " › restore source"
+			c.Check(bad == "", "C04.E5-restore-from-snapshot", key, in.Pos(), "the value put back on failure is a copy taken before the switch (or nil: nothing to undo)", "the restoring call is handed "+bad+": the state saved for the undo aliases the state that the fallback then overwrites, so a failed request leaves the client on the legacy path")
+		}
+	})
+	if n > 0 {
+		c.Floor("C04.E5-restore-from-snapshot", 1)
+	}
 }
 
 // callsOnlyFrom reports whether every static call site of fn lies in caller.
